@@ -11,6 +11,34 @@ TRUST = ("Trusted: the pyvc symbolic interpreter and its use of NumPy object arr
          "mathematical integers, floats as reals in bookkeeping identities. ")
 
 CLAIMED = {
+    'C15': dict(
+        category='proof',
+        text=("Frame obligations generated from the AST of the working tree for every public callable of the anchored modules (tensor "
+              "modules, backend_np kernels, MPS parent/OBC classes, Lattice/Peps): each store site (subscript/attribute store, in-place "
+              "augmented assignment, del, mutating method call) must be rooted in an object the function allocated itself, never in a "
+              "parameter or something aliasing one (NumPy views, shallow wrappers, fields shared by _replace/shallow_copy), except the "
+              "receiver of the documented in-place API (names ending in '_', set_block, __setitem__, __init__, apply_patch/move_to_patch); "
+              "private helpers are summarised and their effects charged to the public callers; copy()/clone() definitions must build "
+              "their result from copied parts; call sites of the in-place kernel fix_svd_signs must pass fresh arrays. The from_dict site "
+              "that needs path sensitivity is discharged by symbolic execution (C17 obligations). Decided for all inputs and histories "
+              "because the obligations are on the code, not on runs."),
+        design_ref='DESIGN.md §5 C15',
+        note="Trusted: the ownership rules of pyvc.frame (allocation vs view vs shallow wrapper tables for NumPy/builtins), the naming contract used modularly at call sites (each definition in scope is itself checked against it), immutability of Tensor's tuple fields. Environments' copy/clone and the torch backends are outside the analysed files. Known finding F9 (expand_krylov_space) listed.",
+        technique='frame/effect contracts decided by a flow-sensitive ownership analysis over the AST (one obligation per store site), with one site discharged by SMT-based symbolic execution',
+    ),
+    'C16': dict(
+        category='proof',
+        text=("For every lru_cache-decorated function of the package (18 in the tensor layer): R every free name it reads is a builtin, an import, "
+              "a function or an immutable module constant never rebound (so the result is a function of the arguments only: symmetry, "
+              "fermionic flags and fusion data must arrive as arguments), W it writes through none of its parameters (directly or via "
+              "helpers) and touches no module state, O in every analysed caller the returned value and everything unpacked from it is only "
+              "read (no store, no mutating method, not passed to a helper that writes through that parameter); and clear_cache / "
+              "set_cache_maxsize / get_cache_info administer exactly the memoised functions. Together with the fact that all SMT packs "
+              "interpret the UNcached bodies, cached and uncached execution are extensionally equal for every history."),
+        design_ref='DESIGN.md §5 C16',
+        note="Trusted: functools.lru_cache, hashability/equality of argument types (Python raises on unhashable keys), pyvc.frame's rules. Callers outside the analysed files are not seen. No bounded cold/warm relational run was built.",
+        technique='read-frame / write-frame / result-ownership contracts on memoised functions decided by AST analysis',
+    ),
     'C17': dict(
         category='proof',
         text=("Field-wise round trip on the real Tensor.to_dict / Tensor.from_dict / _convert_lists_to_tuples / make_config at levels 0, 1, 2, "
